@@ -4,6 +4,8 @@
  *   <fn>_b  kind=B  bounded stand-in (len <= 4, all element values symbolic): the full postcondition against a plain
  *                   reference loop; replayable natively, guards against a wrong contract.                                   */
 void _ZN3etl14assert_handlerINS_10assert_msgEEEvRKT_(struct etl_assert_msg *m) { __CPROVER_assert(0, "C05: assert_handler fired on valid input"); __CPROVER_assume(0); }
+int *g_base0(void) { return vf_gb0; }    /* ghost hook of vf::gix: the base pointer of range 0 */
+#define XG struct vf_gix_int_0
 #define GH() do { vf_n = nondet_ulong(); vf_m = nondet_ulong(); vf_k = nondet_ulong(); vf_j = nondet_ulong(); vf_p = nondet_ulong(); vf_q = nondet_ulong(); vf_ov = nondet_ulong(); vf_sel = 0; } while (0)
 #define P3(x) ((x) % 3 == 0)
 #define OP1(x) (((x) & 0x3fffffff) * 2 + 1)
@@ -341,21 +343,21 @@ void h_lexicographical_compare_b(void) { IN2(a, n, b, m); _Bool r = lexcmp(a, a 
   VF_ASSERT(r == e, "C06: lexicographical_compare"); VF_REACH(); }
 
 /*@GROUP name=min_element props=C06,C02 kind=U mode=contract enforce=etl_min_element loops=1 standin=min_element_b@*/
-void h_min_element(void) { int *f, *l; GH(); etl_min_element(f, l); VF_REACH(); }
+void h_min_element(void) { XG f, l; GH(); etl_min_element(f, l); VF_REACH(); }
 /*@GROUP name=min_element_b props=C06,C02 kind=B bound=len<=4 unwind=6@*/
 void h_min_element_b(void) { IN1(a, n); int *r = min_element_int(a, a + n);
   unsigned long e = 0; for (unsigned long i = 1; i < n; ++i) if (a_in[i] < a_in[e]) e = i;
   VF_ASSERT(r == (n ? a + e : a + n), "C06: min_element returns the first smallest element, last if empty"); UNCHANGED(a, n); VF_REACH(); }
 
 /*@GROUP name=max_element props=C06,C02 kind=U mode=contract enforce=etl_max_element loops=1 standin=max_element_b@*/
-void h_max_element(void) { int *f, *l; GH(); etl_max_element(f, l); VF_REACH(); }
+void h_max_element(void) { XG f, l; GH(); etl_max_element(f, l); VF_REACH(); }
 /*@GROUP name=max_element_b props=C06,C02 kind=B bound=len<=4 unwind=6@*/
 void h_max_element_b(void) { IN1(a, n); int *r = max_element_int(a, a + n);
   unsigned long e = 0; for (unsigned long i = 1; i < n; ++i) if (a_in[e] < a_in[i]) e = i;
   VF_ASSERT(r == (n ? a + e : a + n), "C06: max_element returns the first largest element, last if empty"); UNCHANGED(a, n); VF_REACH(); }
 
 /*@GROUP name=max_element_gt props=C06,C02 kind=U mode=contract enforce=etl_max_element_gt loops=1 standin=max_element_gt_b@*/
-void h_max_element_gt(void) { int *f, *l; struct etl_greater c; GH(); etl_max_element_gt(f, l, c); VF_REACH(); }
+void h_max_element_gt(void) { XG f, l; struct etl_greater c; GH(); etl_max_element_gt(f, l, c); VF_REACH(); }
 /*@GROUP name=max_element_gt_b props=C06,C02 kind=B bound=len<=4 unwind=6@*/
 void h_max_element_gt_b(void) { IN1(a, n); int *r = max_element_gt(a, a + n);
   unsigned long e = 0; for (unsigned long i = 1; i < n; ++i) if (a_in[e] > a_in[i]) e = i;
@@ -414,3 +416,34 @@ void h_minmax_b(void) { VF_INPUT(int, a); VF_INPUT(int, b); const int *lo, *hi; 
   VF_ASSERT(min_int(&a, &b) == (b < a ? &b : &a), "C06: min returns the first argument when equivalent");
   VF_ASSERT(max_int(&a, &b) == (a < b ? &b : &a), "C06: max returns the first argument when equivalent");
   VF_ASSERT(lo == (b < a ? &b : &a) && hi == (b < a ? &a : &b), "C06: minmax returns pair(a, b) unless b < a"); VF_REACH(); }
+
+/*@COMMON@*/
+#define SORTED(a, n) for (unsigned long i_ = 1; i_ < (n); ++i_) VF_ASSUME(!(a##_in[i_] < a##_in[i_ - 1]))
+
+/*@GROUP name=lower_bound props=C06,C02 kind=U mode=contract enforce=etl_lower_bound loops=1 standin=lower_bound_b@*/
+void h_lower_bound(void) { XG f, l; int *v; struct etl_less c; GH(); etl_lower_bound(f, l, v, c); VF_REACH(); }
+/*@GROUP name=lower_bound_b props=C06,C02 kind=B bound=len<=4 unwind=6@*/
+void h_lower_bound_b(void) { IN1(a, n); SORTED(a, n); VF_INPUT(int, v); int *r = lower_bound_int(a, a + n, &v);
+  unsigned long i = 0; while (i < n && a_in[i] < v) ++i;
+  VF_ASSERT(r == a + i, "C06: lower_bound returns the first position whose element is not less than value"); UNCHANGED(a, n); VF_REACH(); }
+
+/*@GROUP name=upper_bound props=C06,C02 kind=U mode=contract enforce=etl_upper_bound loops=1 standin=upper_bound_b@*/
+void h_upper_bound(void) { XG f, l; int *v; struct etl_less c; GH(); etl_upper_bound(f, l, v, c); VF_REACH(); }
+/*@GROUP name=upper_bound_b props=C06,C02 kind=B bound=len<=4 unwind=6@*/
+void h_upper_bound_b(void) { IN1(a, n); SORTED(a, n); VF_INPUT(int, v); int *r = upper_bound_int(a, a + n, &v);
+  unsigned long i = 0; while (i < n && !(v < a_in[i])) ++i;
+  VF_ASSERT(r == a + i, "C06: upper_bound returns the first position whose element is greater than value"); UNCHANGED(a, n); VF_REACH(); }
+
+/*@GROUP name=binary_search props=C06,C02 kind=U mode=contract enforce=etl_binary_search replace=etl_lower_bound standin=binary_search_b@*/
+void h_binary_search(void) { XG f, l; int *v; struct etl_less c; GH(); etl_binary_search(f, l, v, c); VF_REACH(); }
+/*@GROUP name=binary_search_b props=C06,C02 kind=B bound=len<=4 unwind=6@*/
+void h_binary_search_b(void) { IN1(a, n); SORTED(a, n); VF_INPUT(int, v); _Bool r = binary_search_int(a, a + n, &v);
+  _Bool e = 0; for (unsigned long i = 0; i < n; ++i) if (a_in[i] == v) e = 1;
+  VF_ASSERT(r == e, "C06: binary_search returns whether an element equivalent to value exists"); VF_REACH(); }
+
+/*@GROUP name=equal_range props=C06,C02 kind=U mode=contract enforce=etl_equal_range loops=1 standin=equal_range_b@*/
+void h_equal_range(void) { XG f, l; int *v; struct etl_less c; GH(); etl_equal_range(f, l, v, c); VF_REACH(); }
+/*@GROUP name=equal_range_b props=C06,C02 kind=B bound=len<=4 unwind=6@*/
+void h_equal_range_b(void) { IN1(a, n); SORTED(a, n); VF_INPUT(int, v); struct vf_pii r; equal_range_int(a, a + n, &v, &r);
+  unsigned long i = 0; while (i < n && a_in[i] < v) ++i; unsigned long j = i; while (j < n && !(v < a_in[j])) ++j;
+  VF_ASSERT(r.a == a + i && r.b == a + j, "C06: equal_range returns [lower_bound, upper_bound)"); VF_REACH(); }
